@@ -158,7 +158,7 @@ PeerStep(ln, a, P0) ==
     IN /\ A("sel", "hosts asked to whitelist", CalledOK(P0, a, called))
        /\ A("sel", "whitelist instructions", calls = e.calls /\ Len(ln.st.calls) = Cardinality(e.calls))
        /\ A("sel", "peer reply", r.ok = e.res.ok /\ (r.ok => got = e.res.val))
-       /\ A("sel", "peer error", ~r.ok => r.err \in (IF e.res.err = "nohosts" THEN {"nohosts", "hosterrors"} ELSE {e.res.err}))
+       /\ A("sel", "peer error (nobody could be asked / everybody asked failed)", ~r.ok => r.err = e.res.err)
        /\ A("reg", "instruction sent to a host without live registered connection",
             \A c \in calls : \E h \in DOMAIN P0.reg : Callable(P0, h) /\ P0.reg[h] = c[1])
        /\ A("reg", "reply contains a host without live registered connection",
@@ -293,7 +293,7 @@ EvPeer(P, a, r, allcalls) ==
              e      == PeerF(P1, a, called)
          IN [ok |-> /\ AuthGood(P, a) /\ CalledOK(P1, a, called)
                     /\ r.ok = e.res.ok /\ (r.ok => got = e.res.val)
-                    /\ ~r.ok => r.err \in (IF e.res.err = "nohosts" THEN {"nohosts", "hosterrors"} ELSE {e.res.err}),
+                    /\ ~r.ok => r.err = e.res.err,
              st |-> e.st, calls |-> e.calls]
 
 EvAddNode(P, a, r) ==
